@@ -1,6 +1,6 @@
 From Coq Require Import ZArith NArith List Bool Lia Arith ZifyBool ZifyN ZifyNat.
 Import ListNotations.
-Require Import SR.Base.Res SR.Base.Dec SR.Gen.EstructParams SR.Gen.Cp037 SR.Spec.Encode SR.Model.Estruct.
+Require Import SR.Base.Res SR.Base.Dec SR.Gen.EstructParams SR.Gen.Cp037 SR.Gen.TextCodec SR.Spec.Encode SR.Model.Estruct.
 Open Scope N_scope.
 Ltac Zify.zify_post_hook ::= Z.to_euclidean_division_equations.
 
@@ -302,10 +302,18 @@ Proof.
 Qed.
 
 (* ---------- text ---------- *)
+(* the codec the source names IS code page 037 *)
+Lemma codec_is_cp037 : text_table = cp037_table.
+Proof. vm_compute. reflexivity. Qed.
+
+Lemma text_decode_cp037 b : text_decode b = cp037 b.
+Proof. unfold text_decode, cp037. rewrite codec_is_cp037. reflexivity. Qed.
+
 Lemma C02_text k buffer : length buffer = k ->
   unpack_x display_spelling k buffer = Ok (VStr (map cp037 buffer)).
 Proof.
   intros <-. unfold unpack_x. rewrite usage_display. unfold unpack_text.
+  rewrite (map_ext _ _ text_decode_cp037).
   rewrite map_length, Nat.leb_refl. replace text_dotall with true by reflexivity. reflexivity.
 Qed.
 
